@@ -31,26 +31,53 @@ class Driver:
         self.p = subprocess.Popen([driver, self.path], stdin=subprocess.PIPE, stdout=subprocess.PIPE, stderr=self.err, text=True,
                                   env=env, bufsize=1, cwd=self.cwd)
         self.timed_out = False
+        self.starved = False
 
-    def _arm(self, seconds):
+    def _cpu_seconds(self):
+        """CPU time (user + system) the driver process has consumed so far; None if it cannot be read"""
+        try:
+            with open(f"/proc/{self.p.pid}/stat") as f:
+                fields = f.read().rsplit(")", 1)[1].split()
+            return (int(fields[11]) + int(fields[12])) / os.sysconf("SC_CLK_TCK")
+        except Exception:
+            return None
+
+    def _arm(self, cpu_limit_s, wall_limit_s):
+        """Watchdog of one driver step.  The verdict 'hang' is decided on the CPU time the driver itself burnt in this step
+        (the known hangs are busy loops of 2^32 iterations; a legitimate step takes milliseconds), never on wall-clock time:
+        on a loaded machine a starved driver is killed after a generous wall-clock limit and reported as `starved`, which
+        is tooling-inconclusive, not a violation."""
         import threading
+        import time as _t
+        cpu0 = self._cpu_seconds() or 0.0
+        t0 = _t.time()
+        stop = threading.Event()
 
-        def fire():
-            self.timed_out = True
-            try:
-                self.p.kill()
-            except Exception:
-                pass
-        t = threading.Timer(seconds, fire)
-        t.daemon = True
-        t.start()
-        return t
+        def watch():
+            while not stop.wait(0.25):
+                if self.p.poll() is not None:
+                    return
+                cpu = self._cpu_seconds()
+                if cpu is not None and cpu - cpu0 > cpu_limit_s:
+                    self.timed_out = True
+                elif _t.time() - t0 > wall_limit_s:
+                    self.starved = True
+                else:
+                    continue
+                try:
+                    self.p.kill()
+                except Exception:
+                    pass
+                return
+        th = threading.Thread(target=watch, daemon=True)
+        th.start()
+        return stop
 
     def read_until(self, end, watchdog_s=12):
-        """a step of the driver that takes longer than the watchdog is a hang (the trees are tiny:
-        a compile takes milliseconds); the process is killed and the caller sees EOF + timed_out."""
+        """a step of the driver that burns more than `watchdog_s` CPU-seconds is a hang (the trees are tiny: a compile takes
+        milliseconds); the process is killed and the caller sees EOF + timed_out (or + starved, see _arm)."""
         lines = []
-        timer = self._arm(watchdog_s)
+        stop = self._arm(watchdog_s, 600)
         try:
             while True:
                 ln = self.p.stdout.readline()
@@ -61,7 +88,7 @@ class Driver:
                     return lines, True
                 lines.append(ln)
         finally:
-            timer.cancel()
+            stop.set()
 
     def send(self, line):
         try:
@@ -354,7 +381,7 @@ def run_spec(driver, spec, workdir, tag, rng, max_solutions=60, brute_budget=200
     nsol = 0
     opt = None
     if not ok:
-        status = "hang" if d.timed_out else "driver_died"
+        status = "hang" if d.timed_out else ("starved" if d.starved else "driver_died")
     elif any(ln.startswith("EXC") for ln in lines):
         status = "compile_exception"
         msg = [ln for ln in lines if ln.startswith("EXC")][0]
@@ -384,7 +411,7 @@ def run_spec(driver, spec, workdir, tag, rng, max_solutions=60, brute_budget=200
                 break
             sl, ok = d.read_until("ENDSOL")
             if not ok:
-                status = "driver_died"
+                status = "readback_hang" if d.timed_out else ("starved" if d.starved else "driver_died")
                 break
             sol = parse_solution(sl)
             if sol["exc"]:
@@ -397,8 +424,12 @@ def run_spec(driver, spec, workdir, tag, rng, max_solutions=60, brute_budget=200
             bump("placements_checked", len(R))
     rc, err = d.close()
     if status == "hang":
-        report("compile_hang", "the library did not finish compiling this tree within the watchdog (12 s for a tree of "
+        report("compile_hang", "the library burnt more than 12 CPU-seconds compiling this tree without finishing (a tree of "
                f"{len(spec['nodes'])} nodes); passes {spec.get('passes')}")
+    elif status == "readback_hang":
+        report("readback_hang", f"populateResults() burnt more than 12 CPU-seconds on a tree of {len(spec['nodes'])} nodes")
+    elif status == "starved":
+        bump("driver_starved")  # killed by the wall-clock limit with little CPU used: the machine, not the library
     elif rc != 0 or "Sanitizer" in err or "runtime error:" in err:
         status = "sanitizer" if ("Sanitizer" in err or "runtime error:" in err) else f"driver_rc_{rc}"
         report("sanitizer_report" if status == "sanitizer" else "driver_crashed", err.strip()[:1200] or f"exit code {rc}")
